@@ -177,5 +177,6 @@ def run(ctx, rep):
     tables.r20a(ctx, rep)
     r20b(ctx, rep)
     r20c(ctx, rep)
+    tables.r11f(ctx, rep, rule="R20d")
     rep.not_decided += ["the counter arithmetic (that the count is zero exactly at the properly nested partner) and the byte-indexed cursor lookup (value-level)",
                         "panic-freedom of highlight/highlight_check (C06's inventory covers their bodies)"]
